@@ -685,13 +685,20 @@ class Interp:
         for c in body:
             labels = []
             while c is not None and c['k'] in ('Case', 'Default'):
-                labels.append(canon(c['v']) if c['k'] == 'Case' else 'default')
+                if c['k'] == 'Case':
+                    labels.append(canon(c['v']))
+                    v = c['v']
+                    self._label_value[labels[-1]] = v.get('v') if v.get('k') in ('Lit', 'Var') else None
+                else:
+                    labels.append('default')
                 c = c['sub']
             if labels:
                 segs.append([labels, [c] if c else []])
             elif segs:
                 segs[-1][1].append(c)
         return segs
+
+    _label_value = {}
 
     def run_switch(self, s, states):
         segs = self.switch_segments(s)
@@ -708,7 +715,14 @@ class Interp:
             for st in pre:
                 cc = canon(s['c'], st.env)
                 known = None
-                if CONST_RE.match(cc):
+                if self.cenv is not None:
+                    cv = self.ceval(s['c'], st)
+                    if cv is not None:
+                        hit = [l for l in alllabels if self._label_value.get(l) == cv]
+                        known = hit[0] if hit else '#%d' % cv
+                if known is not None:
+                    pass
+                elif CONST_RE.match(cc):
                     known = cc
                 else:
                     pre_s = 'EQ(%s,' % cc
@@ -746,6 +760,10 @@ class Interp:
                 cc = canon(s['c'], st.env)
                 if CONST_RE.match(cc) and cc in alllabels:
                     continue
+                if self.cenv is not None:
+                    cv = self.ceval(s['c'], st)
+                    if cv is not None and any(self._label_value.get(l) == cv for l in alllabels):
+                        continue
                 ns = st.copy()
                 for l2 in alllabels:
                     ns.facts.add(('EQ(%s,%s)' % (cc, l2), False))
@@ -840,7 +858,12 @@ class Outcomes(Interp):
                 rv = 'true' if s['e']['v'] else 'false'
         else:
             rv = None
-        self.outcomes.append(dict(ret=rv, events=st.aut.get('ev', ()), facts=frozenset(st.facts), path=st.show_path(), line=s.get('l')))
+        retv = None
+        if rv in ('true', 'false'):
+            retv = int(rv == 'true')
+        elif s.get('e') is not None:
+            retv = self.ceval(s['e'], st)
+        self.outcomes.append(dict(ret=rv, retv=retv, events=st.aut.get('ev', ()), facts=frozenset(st.facts), path=st.show_path(), line=s.get('l')))
 
     def on_exit(self, st):
-        self.outcomes.append(dict(ret=None, events=st.aut.get('ev', ()), facts=frozenset(st.facts), path=st.show_path(), line=self.fn.get('endline')))
+        self.outcomes.append(dict(ret=None, retv=None, events=st.aut.get('ev', ()), facts=frozenset(st.facts), path=st.show_path(), line=self.fn.get('endline')))
